@@ -34,17 +34,18 @@ HEADER = ("From Coq Require Import ZArith QArith List Bool.\n"
 # meaning of the judge's flag bits per case kind
 FLAGS = {
     "CQuad": {1: "prop:panic-or-not-a-finite-polyline", 2: "prop:end-points-not-preserved", 4: "prop:vertex-not-on-curve-in-order",
-              8: "prop:deviation>K*tol", 16: "known:deviation>K*tol-where-tangent-turns>=90deg", 32: "checker-rejected", 64: "tie:malformed-case"},
+              8: "prop:deviation>K*tol", 16: "known:deviation>K*tol-where-tangent-turns>=90deg", 32: "checker-rejected", 64: "tie:malformed-case",
+              256: "accepted-by-subdivision-certificate(collinear-piece,-not-under-the-theorem)"},
     "CCirc": {1: "prop:panic-or-not-a-finite-polyline", 2: "prop:end-points-not-preserved", 4: "prop:vertex-further-than-tol-from-circle",
               8: "prop:chord-leaves-K*tol-annulus-or-not-advancing", 128: "tie:centre-not-at-distance-r", 32: "checker-rejected"},
-    "CArcCube": {1: "prop:panic-or-non-finite", 2: "prop:cubics-not-joined", 8: "prop:|conic(B t)-1|>1e-3-not-excluded"},
+    "CArcCube": {1: "prop:panic-or-non-finite", 2: "prop:cubics-not-joined", 8: "prop:|conic(B t)-1|>4e-3-not-excluded"},
     "CXMono": {1: "prop:panic-or-non-finite", 4: "prop:pieces-do-not-rejoin-to-the-curve", 8: "prop:piece-not-x-monotone", 32: "checker-rejected"},
     "CPub": {1: "prop:panic-or-receiver-modified", 2: "prop:subpath-count-changed", 4: "prop:subpath-start/end-moved",
              8: "prop:open/closed-status-changed", 16: "prop:forbidden-command-kind-in-output"},
 }
 FLAGS["CCube"] = FLAGS["CQuad"]
 KNOWN_BIT = 16
-IGNORE_BITS = 32          # "checker rejected" only accompanies a reason bit
+IGNORE_BITS = 32 | 256    # "checker rejected" only accompanies a reason bit; 256 = accepted by the collinear subdivision certificate
 
 # Proposal for known_findings.json (used until the lead adds it there; see design/C03.md)
 PROPOSED = [dict(
